@@ -249,8 +249,12 @@ func runAggr(f []string) (obs string) {
 	if format != "json" {
 		return errField + " " + orderField + " hex:" + vh.Hex(data)
 	}
-	// jsonlines: every line must be one valid JSON value (encoding/json is the oracle) that
-	// decodes to the reported sample; the unterminated rest of the file, if any, is bad.
+	return fmt.Sprintf("%s %s %s", errField, orderField, jsonPayload(data))
+}
+
+// jsonlines: every line must be one valid JSON value (encoding/json is the oracle) that
+// decodes to the reported sample; the unterminated rest of the file, if any, is bad.
+func jsonPayload(data []byte) string {
 	var ids []string
 	bad := 0
 	rest := string(data)
@@ -271,7 +275,7 @@ func runAggr(f []string) (obs string) {
 		}
 		ids = append(ids, strconv.FormatUint(s.ID, 10))
 	}
-	return fmt.Sprintf("%s %s ids:%s;bad=%d", errField, orderField, strings.Join(ids, ","), bad)
+	return fmt.Sprintf("ids:%s;bad=%d", strings.Join(ids, ","), bad)
 }
 
 func genAggr(r *vh.Rand, tier string) []string {
